@@ -63,6 +63,7 @@ func checkC04(c *Ctx, r *Report) {
 	checkRSState(c, r)
 	checkRSWhole(c, r)
 	checkRSInstances(c, r)
+	checkGFWhole(c, r)
 	// kinds of the decoder
 	r.Rule("E-KIND-RS", "ReedSolomonDecoder.Decode returns only ReedSolomonException-kind errors (so callers' checksum mapping sees every failure)", 1)
 	nf := c.newNilFlow()
